@@ -74,9 +74,11 @@ static long name_index(const identifier &id)
 
 /* ---------- handles ---------- */
 struct RA : public reference_array<Obj> {
+	RA(int len = -1) : reference_array<Obj>(len) { }
 	mpt::content<reference<Obj> > *c() const { return _ref.instance(); }
 };
 struct IA : public item_array<Obj> {
+	IA(int len = -1) : item_array<Obj>(len) { }
 	mpt::content<item<Obj> > *c() const { return _ref.instance(); }
 };
 struct GA : public item_array<metatype> {
@@ -386,6 +388,13 @@ static void drv_step(struct cmd *c)
 			G[h]->unref();
 			G[h] = static_cast<HG *>(cl);
 		}
+		answer(c, "ok", 0);
+	}
+	else if (!strcmp(a, "ctor") && kind != K_GROUP) {
+		int len = (int) drv_int(c, "len", -1);
+		if (hbuf(h)) { answer(c, "skipped", 0); return; }
+		if (kind == K_REF) R[h] = RA(len);
+		else I[h] = IA(len);
 		answer(c, "ok", 0);
 	}
 	else if (!strcmp(a, "release")) {
